@@ -319,6 +319,12 @@ def check(ctx, case, tr, problems, feats):
                 dep_counts[(d["task"], d.get("operation"))] = dep_counts.get((d["task"], d.get("operation")), 0) + 1
             continue
         docs_by_id.setdefault(vid, []).append(d)
+    log_by_id = {r["id"]: r for r in tr.sim.log}
+    wire_client = {}
+    for e in tr.rec.logical:
+        if e["wire"] and e.get("run") is not None:
+            run = tr.rec.runs[e["run"]]
+            wire_client[f"{e['task']}:{run['index_in_task']}:{e['ordinal']}"] = log_by_id[e["wire"][0]].get("node_client")
     sample_by_id = {}
     for s in tr.rec.samples:
         vid = (s["meta"] or {}).get("verif_id")
@@ -355,7 +361,12 @@ def check(ctx, case, tr, problems, feats):
                              {"missing": not names, "over_commit": "over-commit" in feats, "fine": bool(case.get("fine"))}))
             continue
         s = sample_by_id[vid]
+        # the client that really issued the request: the id stored on the HTTP node its wire requests travelled through
+        real_client = wire_client.get(vid, s["client"])
         ctx.clause("record-identity")
+        if real_client != s["client"]:
+            problems.append(("record-identity", f"request {vid} was sent through the HTTP client of client {real_client} but its sample says client {s['client']}", None))
+            continue
         for d in ds:
             ok = (d.get("task") == s["task"] and d.get("operation") == "op-" + s["task"] and d.get("sample-type") == ("warmup" if s["sample_type"] == 0 else "normal")
                   and (d.get("meta") or {}).get("client_id") == s["client"])
